@@ -50,7 +50,7 @@ def opsCtc (op : String) (ins outs : List String) : Option String :=
              | .empty => "ok model-empty"
              | .box m => if showBox m == showBox o then "ok same-as-model" else "ok wider-than-model")
           else "FAIL model-box-not-inside-result " ++ (match HC4.revise main rhs i with | .box m => showBox m | _ => "?"))
-  | "harnesserror", _, _ => pure "ok harnesserror"
+
   | _, _, _ => none
 
 end Ibex.Driver
